@@ -38,14 +38,14 @@ namespace ops = bspline::operators;
 struct Op {
   int code = 0, a = 0, b = 0, c = 0, d = 0;
 };
-enum Focus { F_C09 = 1, F_C10 = 2, F_C14 = 4, F_ALL = 7 };
+enum Focus { F_C09 = 1, F_C10 = 2, F_C14 = 4, F_ALL = 7, F_C02 = 8 };
 
 enum Code {
   G_NEW, G_NEW_INVALID, G_COPY, G_ASSIGN, G_EQUAL_DISTINCT, G_ACCESS,
   S_NEW, S_NEW_INVALID, S_EMPTY, S_WHOLE, S_COPY, S_MOVE, S_ASSIGN, S_MOVE_ASSIGN, S_SELF_ASSIGN, S_UNION, S_INTERSECT, S_ACCESS, S_CONVERT,
   P_NEW, P_NEW_BADCOUNT, P_EMPTY, P_COPY, P_MOVE, P_ASSIGN, P_MOVE_ASSIGN, P_SELF_ASSIGN, P_SELF_MOVE_ASSIGN, P_CROSS_ASSIGN,
   P_SCALE, P_DIV, P_NEG, P_ISCALE, P_IDIV, P_ADD, P_SUB, P_MUL, P_IADD, P_ISUB, P_LINCOMB, P_LINCOMB_BAD,
-  P_APPLY, P_APPLY_SPLINEOP, P_LINFORM, P_BILFORM, P_EVAL, P_PRED, P_FRONTBACK, P_MOVE_REUSE,
+  P_APPLY, P_APPLY_SPLINEOP, P_LINFORM, P_BILFORM, P_EVAL, P_PRED, P_FRONTBACK, P_MOVE_REUSE, P_EVAL_MUTATE,
   CODE_COUNT
 };
 inline const char *code_name(int c) {
@@ -53,7 +53,7 @@ inline const char *code_name(int c) {
                             "S_NEW", "S_NEW_INVALID", "S_EMPTY", "S_WHOLE", "S_COPY", "S_MOVE", "S_ASSIGN", "S_MOVE_ASSIGN", "S_SELF_ASSIGN", "S_UNION", "S_INTERSECT", "S_ACCESS", "S_CONVERT",
                             "P_NEW", "P_NEW_BADCOUNT", "P_EMPTY", "P_COPY", "P_MOVE", "P_ASSIGN", "P_MOVE_ASSIGN", "P_SELF_ASSIGN", "P_SELF_MOVE_ASSIGN", "P_CROSS_ASSIGN",
                             "P_SCALE", "P_DIV", "P_NEG", "P_ISCALE", "P_IDIV", "P_ADD", "P_SUB", "P_MUL", "P_IADD", "P_ISUB", "P_LINCOMB", "P_LINCOMB_BAD",
-                            "P_APPLY", "P_APPLY_SPLINEOP", "P_LINFORM", "P_BILFORM", "P_EVAL", "P_PRED", "P_FRONTBACK", "P_MOVE_REUSE"};
+                            "P_APPLY", "P_APPLY_SPLINEOP", "P_LINFORM", "P_BILFORM", "P_EVAL", "P_PRED", "P_FRONTBACK", "P_MOVE_REUSE", "P_EVAL_MUTATE"};
   return c >= 0 && c < CODE_COUNT ? n[c] : "?";
 }
 
@@ -215,6 +215,42 @@ class Interp {
     });
   }
 
+  // ---- C02 in histories: whatever sequence of operations produced a spline, evaluation returns the value of the
+  // polynomial it stores. Every probe is taken from a fresh copy, so the probe reflects the hidden state (caches,
+  // hints) the object carries from earlier direct evaluations without disturbing it. Exact scalar types only.
+  template <size_t o>
+  void check_eval_of(const Spline<T, o> &p, const std::string &who) {
+    const auto &sup = p.getSupport();
+    if (!sup.containsIntervals()) {
+      Spline<T, o> cp(p);
+      if (!(cp(mk(0)) == mk(0))) fail("C02", who + ": interval-free spline evaluates to a non-zero value");
+      return;
+    }
+    const auto &co = p.getCoefficients();
+    auto piece = [&](size_t k, const T &x) {
+      T xm = (sup[k] + sup[k + 1]) / mk(2), dx = x - xm, pw = mk(1), sum = mk(0);
+      for (size_t j = 0; j <= o; j++) { sum += co[k][j] * pw; pw *= dx; }
+      return sum;
+    };
+    const size_t ni = sup.numberOfIntervals();
+    for (size_t k = 0; k < ni && k < 6; k++) {
+      { Spline<T, o> cp(p); T x = (sup[k] + sup[k + 1]) / mk(2) + (sup[k + 1] - sup[k]) / mk(4);
+        if (!(cp(x) == piece(k, x))) { fail("C02", who + ": value inside interval " + std::to_string(k) + " is not the value of the stored polynomial"); return; } }
+      { Spline<T, o> cp(p); T x = sup[k]; T v = cp(x);
+        if (!(v == piece(k, x)) && !(k > 0 && v == piece(k - 1, x))) { fail("C02", who + ": value at grid point " + std::to_string(k) + " of the support is not the value of an adjacent stored piece"); return; } }
+    }
+    { Spline<T, o> cp(p); T x = sup.back(); if (!(cp(x) == piece(ni - 1, x))) fail("C02", who + ": value at the right end of the support is not the value of the last piece"); }
+    { Spline<T, o> cp(p); if (!(cp(sup.front() - mk(1)) == mk(0)) || !(cp(sup.back() + mk(1, 3)) == mk(0))) fail("C02", who + ": non-zero value outside the closed support"); }
+  }
+  void check_evaluations() {
+    if (!(focus & F_C02)) return;
+    if constexpr (Traits<T>::exact_arith) {
+      with_all([&](auto O, auto &v) {
+        for (size_t i = 0; i < v.size() && !failed; i++) check_eval_of(v[i], "spline<" + std::to_string(decltype(O)::value) + "> #" + std::to_string(i));
+      });
+    }
+  }
+
   // ---- pool bookkeeping
   void target(int kind, size_t i) { targets_.push_back({kind, i}); }
   bool is_target(const Id &id) const {
@@ -341,6 +377,8 @@ class Interp {
     steps_done++;
     if (failed) return;
     check_invariants();
+    check_evaluations();
+    if (failed) return;
     if (focus & F_C14) {
       auto after = snapshot_all();
       for (const auto &b : before) {
@@ -592,7 +630,7 @@ class Interp {
         with_ord<MAXO>(*oo, [&](auto O) { unary<decltype(O)::value>(op); });
         return true;
       }
-      case P_CROSS_ASSIGN: case P_ADD: case P_SUB: case P_MUL: case P_IADD: case P_ISUB: case P_BILFORM: case P_PRED: case P_APPLY_SPLINEOP: case P_MOVE_REUSE: {
+      case P_CROSS_ASSIGN: case P_ADD: case P_SUB: case P_MUL: case P_IADD: case P_ISUB: case P_BILFORM: case P_PRED: case P_APPLY_SPLINEOP: case P_MOVE_REUSE: case P_EVAL_MUTATE: {
         auto oa = pick_order(op.a), ob = pick_order(op.b);
         if (!oa || !ob) return false;
         with_ord<MAXO>(*oa, [&](auto A) { with_ord<MAXO>(*ob, [&](auto B) { binary<decltype(A)::value, decltype(B)::value>(op); }); });
@@ -817,6 +855,32 @@ class Interp {
             else free_call("BilinearForm{SplineOperator} guard unreachable", form);
           }
           if (!ok && must) failing();
+        }
+        break;
+      }
+      case P_EVAL_MUTATE: {
+        // evaluate the object directly (strictly inside interval k), then change it through one of the mutating paths:
+        // whatever evaluation remembers must not survive the change (the per-step oracles probe it afterwards)
+        if constexpr (ob <= oa) {
+          if (sa.containsIntervals()) {
+            size_t k = (unsigned)op.a % sa.numberOfIntervals();
+            valid_call("evaluation", [&] { (void)va[a]((sa[k] + sa[k + 1]) / mk(2)); });
+          }
+          if (differ) break;
+          target(ka, a); inplace_mark(ka, a);
+          valid_call("mutation after evaluation", [&] {
+            switch (((unsigned)op.b >> 2) % 5) {
+              case 0: va[a] = vb[b]; break;  // cross-order (ob < oa) or same-order copy assignment
+              case 1: va[a] += vb[b]; break;
+              case 2: va[a] *= mk(3, 2); break;
+              case 3: { Spline<T, oa> tmp(vb[b].getSupport().getGrid()); tmp = vb[b]; va[a] = std::move(tmp); break; }
+              default: { Spline<T, oa> tmp(sa.getGrid()); va[a] = tmp; va[a] -= vb[b]; break; }
+            }
+          });
+          if (sb.containsIntervals() && ((unsigned)op.b & 1)) {
+            const auto &ns = va[a].getSupport();
+            if (ns.containsIntervals()) { size_t k = (unsigned)op.a % ns.numberOfIntervals(); valid_call("evaluation", [&] { (void)va[a]((ns[k] + ns[k + 1]) / mk(2)); }); }
+          }
         }
         break;
       }
